@@ -97,8 +97,8 @@ def vocab (mnone : Bool) : List (Word × Act) := [
   (w!"nove", unit mnone 9),
   (w!"non", small mnone [9]),
   (w!"dez", small mnone [1,0]), (w!"décim", small mnone [1,0]),
-  (w!"onze", small mnone [1,1]),
-  (w!"doze", small mnone [1,2]),
+  (w!"onze", small mnone [1,1]), (w!"undécim", small mnone [1,1]),
+  (w!"doze", small mnone [1,2]), (w!"duodécim", small mnone [1,2]),
   (w!"treze", small mnone [1,3]),
   (w!"catorze", small mnone [1,4]), (w!"quatorze", small mnone [1,4]),
   (w!"quinze", small mnone [1,5]),
@@ -118,7 +118,7 @@ def vocab (mnone : Bool) : List (Word × Act) := [
   (w!"cem", .when (.neg onlyMult) (.block ONLY_MULTIPLIERS (.put [1,0,0]))),
   (w!"cent", hundreds [1,0,0]), (w!"centésim", hundreds [1,0,0]),
   (w!"duzent", hundreds [2,0,0]), (w!"ducentésim", hundreds [2,0,0]),
-  (w!"trezent", hundreds [3,0,0]), (w!"trecentésim", hundreds [3,0,0]),
+  (w!"trezent", hundreds [3,0,0]), (w!"trecentésim", hundreds [3,0,0]), (w!"tricentésim", hundreds [3,0,0]),
   (w!"quatrocent", hundreds [4,0,0]), (w!"quadringentésim", hundreds [4,0,0]),
   (w!"quinhent", hundreds [5,0,0]), (w!"quingentésim", hundreds [5,0,0]), (w!"qüingentésim", hundreds [5,0,0]),
   (w!"seiscent", hundreds [6,0,0]), (w!"sexcentésim", hundreds [6,0,0]), (w!"seiscentésim", hundreds [6,0,0]),
